@@ -48,6 +48,34 @@ theorem batched_ack_sound (s0 : Store) (calls : List PutCall) (o : FlushOracle)
     have h1 := runPuts_acked s0 calls [] hA
     exact flusher_acked _ o _ h1 hr e.1 (List.mem_append_left _ (mem_ackedOf he hack))
 
+/-- **A failed wait for an upload slot is reported.**  If, in any flush (of a
+`Put` or of the flusher), FindMissing succeeded and the scheduling goroutine's
+`AcquireSemaphore` failed at any point — the context was cancelled while it
+waited for a slot of the shared put semaphore, or between two uploads, even if
+none of this flush's own Puts failed — then the flush records an error (so, by
+`sticky_error_*`, the flusher returns one and, by `failure_prunes`, the response
+is not OK, nothing is cached and the outputs are pruned), and nothing stays
+pending. -/
+theorem acquire_failure_recorded (s : Store) (o : FlushOracle) (pre : List (Digest × Option Code))
+    (c : Code) (post : List IssueEv) (hfm : o.fm = none)
+    (hp : o.puts = pre.map (fun e => IssueEv.put e.1 e.2) ++ .acquireFailed c :: post) :
+    (flushLocked s o).flushError ≠ none ∧ s.errorsRecorded < (flushLocked s o).errorsRecorded ∧
+    (flushLocked s o).pending = [] ∧ (flusher s o).2 ≠ none := by
+  have herrs := issuePuts_acquireFailed_after s.cas ⟨s.pending, s.cas, s.consumed, []⟩ pre c post
+  have key : (flushLocked s o).flushError ≠ none ∧ s.errorsRecorded < (flushLocked s o).errorsRecorded := by
+    unfold flushLocked
+    rw [hfm, hp]
+    simp only
+    split
+    · exact ⟨by simp, Nat.lt_succ_self _⟩
+    · rename_i hnone
+      exfalso
+      refine chooseErr_ne_none o.winner ?_ hnone
+      split
+      · simp
+      · exact herrs
+  exact ⟨key.1, key.2, flushLocked_pending s o, key.1⟩
+
 /-- **batched_ack_sound, history form.**  For *every* history of Puts and
 flusher calls on the batched store (from any initial state): whenever the next
 flusher call returns nil, every digest whose `Put` returned nil since the
@@ -353,11 +381,11 @@ private def okResp : Response := ⟨none, 0, [1, 2], [3], some 4, none, [], 0⟩
 private def okReq : Request := ⟨true, true, false, 7⟩
 private def w0 : World := World.init 2 [3]
 private def puts4 : List PutCall :=
-  [⟨1, 10, .ok⟩, ⟨2, 11, .ok⟩, ⟨1, 12, .ok⟩, ⟨4, 13, { fm := none, puts := [(1, none), (2, none)] }⟩, ⟨3, 14, .ok⟩]
-private def oOK : ExecOracle := ⟨{ fm := none, puts := [(4, none)] }, none, none⟩
+  [⟨1, 10, .ok⟩, ⟨2, 11, .ok⟩, ⟨1, 12, .ok⟩, ⟨4, 13, { fm := none, puts := [.put 1 none, .put 2 none] }⟩, ⟨3, 14, .ok⟩]
+private def oOK : ExecOracle := ⟨{ fm := none, puts := [.put 4 none] }, none, none⟩
 /-- the second underlying Put of the batch fails with Unavailable (14) -/
 private def putsFail : List PutCall :=
-  [⟨1, 10, .ok⟩, ⟨2, 11, .ok⟩, ⟨4, 13, { fm := none, puts := [(1, none), (2, some 14)] }⟩]
+  [⟨1, 10, .ok⟩, ⟨2, 11, .ok⟩, ⟨4, 13, { fm := none, puts := [.put 1 none, .put 2 (some 14)] }⟩]
 
 -- a successful run writes the AC entry, all referenced digests are stored, every buffer consumed once
 example : (execute w0 okReq ⟨puts4, okResp⟩ oOK).world.acCalls = w0.acCalls + 1 := by decide
@@ -373,11 +401,19 @@ example : (execute w0 okReq ⟨putsFail, okResp⟩ oOK).final.status = some 14 :
 example : (execute w0 okReq ⟨putsFail, okResp⟩ oOK).world.ac = [] := by decide
 example : (execute w0 okReq ⟨putsFail, okResp⟩ oOK).final.files = [] := by decide
 -- a history with a flusher call in the middle: only the Puts after it count as "acknowledged since"
-example : (runOps ⟨w0.store, [], []⟩ [.put ⟨1, 10, .ok⟩, .flush { fm := none, puts := [(1, none)] }, .put ⟨2, 11, .ok⟩]).acked = [2] := by decide
-example : (flusher (runOps ⟨w0.store, [], []⟩ [.put ⟨1, 10, .ok⟩, .flush { fm := none, puts := [(1, none)] }, .put ⟨2, 11, .ok⟩]).store
-    { fm := none, puts := [(2, none)] }).2 = none := by decide
+example : (runOps ⟨w0.store, [], []⟩ [.put ⟨1, 10, .ok⟩, .flush { fm := none, puts := [.put 1 none] }, .put ⟨2, 11, .ok⟩]).acked = [2] := by decide
+example : (flusher (runOps ⟨w0.store, [], []⟩ [.put ⟨1, 10, .ok⟩, .flush { fm := none, puts := [.put 1 none] }, .put ⟨2, 11, .ok⟩]).store
+    { fm := none, puts := [.put 2 none] }).2 = none := by decide
+-- the context is cancelled while the flusher waits for an upload slot held by another thread:
+-- no Put of this flush fails, yet the flush reports Canceled and nothing is cached
+example : (execute w0 okReq ⟨[⟨1, 10, .ok⟩, ⟨2, 11, .ok⟩], okResp⟩
+    ⟨{ fm := none, puts := [.acquireFailed canceled] }, none, none⟩).flushErr = some canceled := by decide
+example : (execute w0 okReq ⟨[⟨1, 10, .ok⟩, ⟨2, 11, .ok⟩], okResp⟩
+    ⟨{ fm := none, puts := [.acquireFailed canceled] }, none, none⟩).world.acCalls = 0 := by decide
+example : (execute w0 okReq ⟨[⟨1, 10, .ok⟩, ⟨2, 11, .ok⟩], okResp⟩
+    ⟨{ fm := none, puts := [.put 1 none, .acquireFailed canceled] }, none, none⟩).world.store.consumed.length = 2 := by decide
 -- a failing AC Put is a caching-layer error
-example : cachingError okReq (execute w0 okReq ⟨puts4, okResp⟩ ⟨{ fm := none, puts := [(4, none)] }, some 14, none⟩).flushed
-    ⟨{ fm := none, puts := [(4, none)] }, some 14, none⟩ = some 14 := by decide
+example : cachingError okReq (execute w0 okReq ⟨puts4, okResp⟩ ⟨{ fm := none, puts := [.put 4 none] }, some 14, none⟩).flushed
+    ⟨{ fm := none, puts := [.put 4 none] }, some 14, none⟩ = some 14 := by decide
 
 end BbRe.Properties.C09
